@@ -7,7 +7,7 @@ CLAIM = {
           'requested sets, widths, decimals and rational values: same_channels (curve section = ~A heading = every data '
           'row = channel 0 + requested-and-present, same_channels_separate for the writers called one by one, specSel_mem_iff), fields_separated / heading_fields_separated (a row '
           'tokenises on blanks into exactly its value texts whatever the width), print_error (|printed - v| <= 1/2 10^-d, '
-          'round-half-even) and print_int_exact, rows_count, data_row_tokens, reduce_mem; composition with the reader model of C09: roundtrip_row_tokens, roundtrip_value, roundtrip_int. The model is tied to the source '
+          'round-half-even) and print_int_exact, rows_count, data_row_tokens, reduce_mem; composition with the reader model of C09: roundtrip_row_tokens, roundtrip_value, roundtrip_int, and the FILE-LEVEL round trip roundtrip_file (C09.parse of header + the whole written text = the listed channels, names/units in order, one frame per source frame, every cell the decimal cellDec of the reduced value; cellDec_spec: within 1/2 10^-d, exact for integer first/min/max; cells_wf). The model is tied to the source '
           'on every run by a correspondence (channel lists, heading line, every data row, tokenising, reductions, the '
           'float/int formatting primitive) and the property is evaluated end to end on the implementation '
           '(write_curve_and_array_section_to_las -> LASRead) with exact Fraction arithmetic. Proof is the right level for '
@@ -15,7 +15,10 @@ CLAIM = {
  'note': ('Trusted: Lean kernel; model<->code correspondence on the cases of the run. Not proved: CPython '
           'format(float, ".nf") = round-half-even of the exact binary value (probed against the Rat model on every run); '
           'float rounding inside numpy mean/median (checked against the exact rational mean/median with an ulp bound). '
-          'Identities are str (all shipped callers); no NaN/inf; X values distinct after printing.'),
+          'Identities are str (all shipped callers); no NaN/inf; X values distinct after printing. roundtrip_file assumes (decidable, necessity shown by '
+          'examples): WRAP NO header, no DATE.D/TIME.HHMMSS channel, identities/units plain tokens, descriptions without colon, '
+          'distinct printed X values; the whole model text (fileText) is compared with the real writer and the C09 model parse of it '
+          'with the real LASRead on every run (streams file_text, file_readback_model).'),
  'technique': 'Lean 4 proof (list induction, rational arithmetic) + model-implementation correspondence + end-to-end oracle',
  'design_ref': 'DESIGN.md section 6 C10',
 }
@@ -42,6 +45,7 @@ TRUSTED = ['modelled, not verified: CPython float.__format__ / int.__format__ (r
 ANCHOR_FILES = ['src/TotalDepth/LAS/core/WriteLAS.py', 'src/TotalDepth/LAS/core/LASRead.py', 'src/TotalDepth/common/data_table.py',
                 'src/TotalDepth/common/LogPass.py']
 F_RETYPED = 'C09-numeric-looking-mnemonic-retyped'
+EXTRA_LEAN_TARGETS = ['drv_c09']      # the reader model used by the end-to-end stream
 
 HEADER = ('~Version Information Section\nVERS. 2.0 : CWLS\nWRAP. NO : one line per frame\n'
           '~Well Information Section\nNULL. -999.25 :\n')
@@ -579,6 +583,67 @@ def run_known(ctx, case):
     return True
 
 
+def _hx(t):
+    return t.encode('ascii').hex() or '_'
+
+
+def correspond_file(ctx, cases, results, limit):
+    """End to end: (1) the WHOLE text of the model (`fileText`: curve table, comment lines, ~A line, rows) equals the text
+    the real writers produced; (2) the C09 model of the reader applied to HEADER + that text returns what the real LASRead
+    returns.  Reduced values are taken from numpy (the reductions have their own stream)."""
+    import numpy as np
+    from props import c09
+    LR = c09._impl()
+    req, meta = [], []
+    for case, res in zip(cases, results):
+        if res is None or len(req) >= limit:
+            continue
+        names = [ch['ident'] for ch in case['chans']]
+        lines = res['text'].split('\n')
+        a_at = next(i for i, ln in enumerate(lines) if ln.startswith('~A'))
+        cm = [ln[1:] for ln in lines[3:a_at] if ln.startswith('#')]
+        chans, skip = [], False
+        fa = build(case)
+        for ch, fch in zip(case['chans'], fa.channels):
+            frs = []
+            for f in range(case['n_frames']):
+                frame = fch.array[f]
+                nv = frame.flatten()[0] if case['red'] == 'first' else getattr(np, case['red'])(frame)
+                if isinstance(nv, (float, np.floating)) and float(nv) == 0 and math.copysign(1.0, float(nv)) < 0:
+                    skip = True                       # IEEE negative zero is not a rational (its `-0.00` has the `fmt` stream)
+                fr = exact(nv)
+                frs.append(f'{fr.numerator}/{fr.denominator}')
+            descr = (ch['long'] + ' Dimensions ' + str(tuple(ch['shape'])))
+            chans.append(':'.join([_hx(ch['ident']), _hx(ch['units']), _hx(descr), '1' if ch['dtype'] in INTS else '0', '|'.join(frs)]))
+        if skip or any(not c_['ident'].isascii() for c_ in case['chans']):
+            ctx.count('file_stream_skipped_negative_zero'); continue
+        req.append('file %d %d %s %d %s %s %s' % (case['width'], case['dec'], case['red'], case['n_frames'],
+                                                 ','.join(_hx(x) for x in case['subset']) or '-', ','.join(_hx(x) for x in cm) or '-', ';'.join(chans)))
+        meta.append((case, res))
+    rep = ctx.lean(req)
+    texts = []
+    for (case, res), r in zip(meta, rep):
+        small = {k: case[k] for k in ('subset', 'width', 'dec', 'red', 'n_frames')}
+        small['idents'] = [c_['ident'] for c_ in case['chans']]
+        mt = bytes.fromhex(r).decode('ascii') if r not in ('bad-op', '-') else r
+        ctx.corr('file_text', small, res['text'], mt)
+        texts.append(HEADER + res['text'])
+    # the C09 reader model on the whole file
+    keep = []
+    for t, (case, res) in zip(texts, meta):
+        xs = [row.split()[0] for row in res['rows']]
+        if len(set(xs)) != len({float(x) for x in xs}):
+            ctx.count('file_stream_x_equal_doubles_skipped'); continue      # distinct decimals, same double: outside the exact-decimal model
+        keep.append((t, case))
+    rep = ctx.lean(['parse ' + t.encode('ascii').hex() for t, _ in keep], name='C09')
+    for (t, case), r in zip(keep, rep):
+        ms = c09.model_struct(r)
+        if ms.get('err') == 'unsupported':
+            ctx.count('file_stream_model_unsupported'); continue
+        small = {'idents': [c_['ident'] for c_ in case['chans']], 'subset': case['subset'], 'width': case['width'], 'dec': case['dec'], 'text': t}
+        ctx.corr('file_readback_model', small, c09.impl_parse(LR, t)[0], ms)
+
+
 def run(ctx):
     rng = ctx.rng
     total, chunk = ctx.n(12000, 200000), 4000
@@ -593,6 +658,7 @@ def run(ctx):
                             'width': case['width'], 'decimals': case['dec'], 'heading': res['head_line'], 'first_row': res['rows'][0]})
         if have_model:
             correspond(ctx, cases, results)
+            correspond_file(ctx, cases, results, ctx.n(700, 6000))
         ctx.count('cases', len(cases))
     known_name_cases(ctx)
     if have_model:
